@@ -1843,16 +1843,17 @@ func (p *parser) scanCharSet(caseInsensitive, scanOnly bool) (*CharSet, error) {
 				}
 
 				nm := p.scanWord() // snag the name
-				if !scanOnly && p.useRE2() {
-					// look up the name since these are valid for RE2
-					// add the group based on the name
-					if ok := cc.addNamedASCII(nm, negate); !ok {
-						return nil, p.getErr(ErrInvalidCharRange)
-					}
-				}
 				if p.charsRight() < 2 || p.moveRightGetChar() != ':' || p.moveRightGetChar() != ']' {
+					// not a [:name:] after all: the characters are ordinary members
 					p.textto(savePos)
 				} else if p.useRE2() {
+					if !scanOnly {
+						// look up the name since these are valid for RE2
+						// add the group based on the name
+						if ok := cc.addNamedASCII(nm, negate); !ok {
+							return nil, p.getErr(ErrInvalidCharRange)
+						}
+					}
 					// move on
 					continue
 				}
